@@ -19,10 +19,16 @@ fn classify<F: FnOnce() -> Result<Vec<Vec<u8>>, ()>>(f: F) -> Out {
 }
 
 /// the read routes: (name, full decode of the whole stored value?, outcome)
-fn reads(ctx: &ArrCtx, c: &[u64]) -> Vec<(&'static str, bool, Out)> {
+fn reads(ctx: &ArrCtx, c: &[u64]) -> Vec<(&'static str, bool, Out)> { reads_opt(ctx, c, true) }
+
+/// the caller's options are explicit; the GLOBAL default is set to the opposite (see `exec_op`), so a route that
+/// rebuilds its options from the global configuration instead of deriving them from the caller's is exposed
+fn opts_for(ctx: &ArrCtx, validate: bool) -> zarrs::array::codec::CodecOptions { ctx.opts.into_builder().validate_checksums(validate).build() }
+
+fn reads_opt(ctx: &ArrCtx, c: &[u64], validate: bool) -> Vec<(&'static str, bool, Out)> {
     let a = ctx.array.clone();
     let es = ctx.es;
-    let o = ctx.opts.clone();
+    let o = opts_for(ctx, validate);
     let rank = a.dimensionality();
     let cshape = a.chunk_shape(c).map(|s| s.iter().map(|x| x.get()).collect::<Vec<u64>>()).unwrap_or(vec![1; rank]);
     let one = ArraySubset::new_with_shape(vec![1; rank]);
@@ -47,11 +53,64 @@ fn reads(ctx: &ArrCtx, c: &[u64]) -> Vec<(&'static str, bool, Out)> {
         Ok(ps.into_iter().flat_map(|b| from_array_bytes(es, b)).collect())
     })));
     if let Some(cs) = &csub {
+        // reads spanning several chunks (whole array, all chunks): interior chunks are decoded straight into the
+        // output (`decode_into`); they decode the whole value of chunk `c` iff the chunk lies inside the array
+        let region = cs.bound(a.shape()).unwrap_or(cs.clone());
+        let full = &region == cs;
+        let whole = ArraySubset::new_with_shape(a.shape().to_vec());
+        v.push(("array_whole", full, classify(|| a.retrieve_array_subset_opt(&whole, &o).map(|b| from_array_bytes(es, b)).map_err(|e| { let _ = e.to_string(); }))));
+        if let Ok(gs) = a.chunk_grid_shape().ok_or(()) {
+            let all = ArraySubset::new_with_shape(gs.to_vec());
+            v.push(("chunks_all", true, classify(|| a.retrieve_chunks_opt(&all, &o).map(|b| from_array_bytes(es, b)).map_err(|e| { let _ = e.to_string(); }))));
+        }
+    }
+    if let Some(cs) = &csub {
         let region = cs.bound(a.shape()).unwrap_or(cs.clone());
         let sc = ArrayShardedReadableExtCache::new(&*a);
         v.push(("sharded_subset", false, classify(|| a.retrieve_array_subset_sharded_opt(&sc, &region, &o).map(|b| from_array_bytes(es, b)).map_err(|e| { let _ = e.to_string(); }))));
     }
     v
+}
+
+/// partial read routes confined to inner chunk `i` (C order in the inner grid) of the shard at chunk `c`
+fn touch_reads(ctx: &ArrCtx, c: &[u64], inner: &[u64], i: usize) -> Vec<(&'static str, Out)> {
+    let a = ctx.array.clone(); let es = ctx.es; let o = opts_for(ctx, true);
+    let rank = a.dimensionality();
+    let cshape = a.chunk_shape(c).map(|s| s.iter().map(|x| x.get()).collect::<Vec<u64>>()).unwrap_or(vec![1; rank]);
+    let mut outs: Vec<(&'static str, Out)> = vec![];
+    if !(inner.len() == rank && inner.iter().zip(&cshape).all(|(a, b)| *a > 0 && b % a == 0)) { return outs; }
+    let grid: Vec<u64> = cshape.iter().zip(inner).map(|(c, i)| c / i).collect();
+    let mut idx = vec![0u64; rank]; let mut r = i as u64;
+    for d in (0..rank).rev() { idx[d] = r % grid[d]; r /= grid[d]; }
+    let start: Vec<u64> = idx.iter().zip(inner).map(|(a, b)| a * b).collect();
+    let sub = ArraySubset::new_with_start_shape(start.clone(), inner.to_vec()).unwrap();
+    let first = ArraySubset::new_with_start_shape(start.clone(), vec![1; rank]).unwrap();
+    let origin: Vec<u64> = a.chunk_origin(c).unwrap_or(vec![0; rank]);
+    let abs = ArraySubset::new_with_start_shape(origin.iter().zip(&start).map(|(a, b)| a + b).collect(), inner.to_vec()).unwrap();
+    let abs_in = abs.inbounds_shape(a.shape());
+    outs.push(("t_chunk_subset", classify(|| a.retrieve_chunk_subset_opt(c, &sub, &o).map(|b| from_array_bytes(es, b)).map_err(|e| { let _ = e.to_string(); }))));
+    outs.push(("t_chunk_subset1", classify(|| a.retrieve_chunk_subset_opt(c, &first, &o).map(|b| from_array_bytes(es, b)).map_err(|e| { let _ = e.to_string(); }))));
+    outs.push(("t_pd", classify(|| {
+        let pd = a.partial_decoder_opt(c, &o).map_err(|e| { let _ = e.to_string(); })?;
+        let ps = pd.partial_decode(&[sub.clone()], &o).map_err(|e| { let _ = e.to_string(); })?;
+        Ok(ps.into_iter().flat_map(|b| from_array_bytes(es, b)).collect())
+    })));
+    if abs_in {
+        outs.push(("t_array_subset", classify(|| a.retrieve_array_subset_opt(&abs, &o).map(|b| from_array_bytes(es, b)).map_err(|e| { let _ = e.to_string(); }))));
+        let sc = ArrayShardedReadableExtCache::new(&*a);
+        outs.push(("t_sharded_subset", classify(|| a.retrieve_array_subset_sharded_opt(&sc, &abs, &o).map(|b| from_array_bytes(es, b)).map_err(|e| { let _ = e.to_string(); }))));
+        let ici: Vec<u64> = abs.start().iter().zip(inner).map(|(a, b)| a / b).collect();
+        let sc2 = ArrayShardedReadableExtCache::new(&*a);
+        outs.push(("t_inner_chunk", classify(|| a.retrieve_inner_chunk_opt(&sc2, &ici, &o).map(|b| from_array_bytes(es, b)).map_err(|e| { let _ = e.to_string(); }))));
+    }
+    outs
+}
+
+/// CRC-32C (Castagnoli), bit-serial; used to keep an adversarially rewritten shard index self-consistent
+fn crc32c_bitwise(data: &[u8]) -> u32 {
+    let mut r: u32 = 0xFFFF_FFFF;
+    for &b in data { r ^= b as u32; for _ in 0..8 { r = if r & 1 == 1 { (r >> 1) ^ 0x82F6_3B78 } else { r >> 1 }; } }
+    r ^ 0xFFFF_FFFF
 }
 
 struct Tally { n: u64, panics: u64, full_diff: u64, full_same: u64, full_err: u64, part_diff: u64, part_err: u64, first_bad: String }
@@ -76,9 +135,11 @@ impl Tally {
 
 pub fn exec_op(ctx: &mut ArrCtx, verb: &str, m: &BTreeMap<String, String>) -> String {
     match verb {
-        "corrupt_all" | "truncate_all" | "extend" | "setindex" | "multi" => {}
+        "corrupt_all" | "truncate_all" | "extend" | "setindex" | "multi" | "novalidate" => {}
         _ => return crate::arr::exec_op(ctx, verb, m),
     }
+    // the global default is the opposite of what the reads ask for explicitly
+    if std::env::var("VERIF_C15_GLOBAL_KEEP").is_err() { zarrs::config::global_config_mut().set_validate_checksums(verb == "novalidate"); }
     let c = pnl(&m["c"]);
     let key: StoreKey = ctx.array.chunk_key(&c);
     let store = ctx.store.store.clone();
@@ -92,12 +153,57 @@ pub fn exec_op(ctx: &mut ArrCtx, verb: &str, m: &BTreeMap<String, String>) -> St
         "corrupt_all" => {
             let masks: Vec<u8> = m["masks"].split(',').map(|x| u8::from_str_radix(x, 16).unwrap()).collect();
             let positions: Vec<usize> = if len <= 256 { (0..len).collect() } else { let mut p: Vec<usize> = (0..64).chain(len - 64..len).collect(); for _ in 0..128 { p.push(rng.below(len as u64) as usize); } p };
+            // with a shard layout known (isz=, idx=): tallies of whole-value reads that did not fail, by region
+            let isz: Option<usize> = m.get("isz").and_then(|s| s.parse().ok());
+            let at_end = m.get("idx").map(|s| s.starts_with("end")).unwrap_or(false);
+            let in_index = |pos: usize| match isz { Some(z) if len >= z => if at_end { pos >= len - z } else { pos < z }, _ => false };
+            let (mut d_noterr, mut i_noterr) = (0usize, 0usize);
             for &pos in &positions { for &mask in &masks {
                 let mut v = pristine_val.clone(); v[pos] ^= mask;
                 store.set(&key, v.into()).unwrap();
                 let now = reads(ctx, &c);
+                let ne = now.iter().filter(|r| r.1 && !matches!(r.2, Out::Err)).count();
+                if in_index(pos) { i_noterr += ne } else { d_noterr += ne }
                 t.add(&format!("xor@{}^{:02x}", pos, mask), &pristine, &now);
             } }
+            if isz.is_some() {
+                let _ = store.set(&key, pristine_val.into());
+                return format!("{} data_full_noterr={} index_full_noterr={}", t.show(), d_noterr, i_noterr);
+            }
+        }
+        "novalidate" => {
+            // alter only stored checksum bytes and read with validation switched off: every route must return exactly
+            // what it returned before ("decoding ignores the checksum and nothing else")
+            let mut spots: Vec<usize> = vec![];
+            match m["sums"].as_str() {
+                "outer" => { if len >= 4 { spots.extend(len - 4..len); } }
+                _ => { // inner: the last four bytes of every stored inner chunk, located through the index
+                    let parts: Vec<&str> = m["idx"].split(':').collect();
+                    let n: usize = m["nchunks"].parse().unwrap();
+                    let icrc = m.get("icrc").map(|s| s == "1").unwrap_or(false);
+                    let isz = 16 * n + if icrc { 4 } else { 0 };
+                    if len >= isz {
+                        let base = if parts[0] == "end" { len - isz } else { 0 };
+                        for i in 0..n {
+                            let rd = |p: usize| { let b: [u8; 8] = pristine_val[p..p + 8].try_into().unwrap(); if parts[1] == "big" { u64::from_be_bytes(b) } else { u64::from_le_bytes(b) } };
+                            let (off, size) = (rd(base + 16 * i), rd(base + 16 * i + 8));
+                            if off == u64::MAX && size == u64::MAX { continue; }
+                            if size >= 4 && (off + size) as usize <= len { spots.extend((off + size - 4) as usize..(off + size) as usize); }
+                        }
+                    }
+                }
+            }
+            let before = reads_opt(ctx, &c, false);
+            let (mut n, mut bad, mut first) = (0u64, 0u64, String::new());
+            for &pos in &spots { for mask in [0x01u8, 0xff] {
+                let mut v = pristine_val.clone(); v[pos] ^= mask;
+                store.set(&key, v.into()).unwrap();
+                let now = reads_opt(ctx, &c, false);
+                n += 1;
+                for (p, q) in before.iter().zip(&now) { if p.2 != q.2 || !matches!(q.2, Out::Val(_)) { bad += 1; if first.is_empty() { first = format!("xor@{}^{:02x}:{}", pos, mask, q.0); } } }
+            } }
+            let _ = store.set(&key, pristine_val.into());
+            return format!("nv n={} spots={} bad={} first={}", n, spots.len(), bad, if first.is_empty() { "-" } else { &first });
         }
         "multi" => {
             for k in 0..m["n"].parse::<u64>().unwrap() {
@@ -131,24 +237,45 @@ pub fn exec_op(ctx: &mut ArrCtx, verb: &str, m: &BTreeMap<String, String>) -> St
             }
         }
         "setindex" => {
-            // idx=<end|start>:<little|big>: rewrite entry i of an index WITHOUT checksum
+            // idx=<end|start>:<little|big> [icrc=1] [inner=a,b]: rewrite entry i of the index (the index checksum, if any,
+            // is recomputed: an adversarial, self-consistent index) and read (a) through every route of `reads`, (b) through
+            // partial routes confined to inner chunk i (must be errors when the entry refers outside the value)
             let parts: Vec<&str> = m["idx"].split(':').collect();
             let n: usize = m["nchunks"].parse().unwrap();
             let i: usize = m["i"].parse().unwrap();
-            let (off, size): (u64, u64) = (m["off"].parse().unwrap(), m["size"].parse().unwrap());
-            let isz = 16 * n;
+            let icrc = m.get("icrc").map(|s| s == "1").unwrap_or(false);
+            let isz = 16 * n + if icrc { 4 } else { 0 };
             if len < isz { let _ = store.set(&key, pristine_val.into()); return "skip".into(); }
             let base = if parts[0] == "end" { len - isz } else { 0 };
+            // symbolic forms: off=len-K (K bytes before the end of the value), size=orig (the entry's stored size)
+            let rd = |p: usize| { let b: [u8; 8] = pristine_val[p..p + 8].try_into().unwrap(); if parts[1] == "big" { u64::from_be_bytes(b) } else { u64::from_le_bytes(b) } };
+            let off: u64 = match m["off"].strip_prefix("len-") { Some(k) => (len as u64).saturating_sub(k.parse().unwrap()), None => m["off"].parse().unwrap() };
+            let size: u64 = if m["size"] == "orig" { rd(base + 16 * i + 8) } else { m["size"].parse().unwrap() };
+            if m["size"] == "orig" && size == u64::MAX { let _ = store.set(&key, pristine_val.into()); return "skip".into(); }
             let mut v = pristine_val.clone();
             let (ob, sb) = if parts[1] == "big" { (off.to_be_bytes(), size.to_be_bytes()) } else { (off.to_le_bytes(), size.to_le_bytes()) };
             v[base + 16 * i..base + 16 * i + 8].copy_from_slice(&ob);
             v[base + 16 * i + 8..base + 16 * i + 16].copy_from_slice(&sb);
+            if icrc { let crc = crc32c_bitwise(&v[base..base + 16 * n]); v[base + 16 * n..base + 16 * n + 4].copy_from_slice(&crc.to_le_bytes()); }
             store.set(&key, v.into()).unwrap();
             let now = reads(ctx, &c);
             let full_noterr = now.iter().filter(|r| r.1 && !matches!(r.2, Out::Err)).count();
             t.add("setindex", &pristine, &now);
+            let mut touch = String::new();
+            if let Some(inner) = m.get("inner").map(|s| pnl(s)) {
+                // reads confined to inner chunk i: each must be an error or return what it returned before the corruption
+                let now_t = touch_reads(ctx, &c, &inner, i);
+                store.set(&key, pristine_val.clone().into()).unwrap();
+                let before_t = touch_reads(ctx, &c, &inner, i);
+                if !now_t.is_empty() && now_t.len() == before_t.len() {
+                    let bad: Vec<&str> = now_t.iter().zip(&before_t).filter(|(q, p)| match &q.1 { Out::Err => false, Out::Panic => true, v => *v != p.1 }).map(|(q, _)| q.0).collect();
+                    let pan = now_t.iter().filter(|r| matches!(r.1, Out::Panic)).count();
+                    let errs = now_t.iter().filter(|r| matches!(r.1, Out::Err)).count();
+                    touch = format!(" touch_n={} touch_err={} touch_bad={} touch_panics={} touch_first={}", now_t.len(), errs, bad.len(), pan, bad.first().copied().unwrap_or("-"));
+                }
+            }
             let _ = store.set(&key, pristine_val.into());
-            return format!("{} full_noterr={} len={}", t.show(), full_noterr, len);
+            return format!("{} full_noterr={} len={} eoff={} esize={}{}", t.show(), full_noterr, len, off, size, touch);
         }
         _ => {}
     }
@@ -195,7 +322,7 @@ fn family_cfg(rng: &mut Rng, fam: u64) -> (Cfg, String, String) {
             let json = format!("[{{\"name\":\"sharding_indexed\",\"configuration\":{{\"chunk_shape\":[{},{}],\"codecs\":{},\"index_codecs\":{},\"index_location\":\"{}\"}}}}]", inner[0], inner[1], ic, idx, loc);
             let isz = 16 * n + if icrc { 4 } else { 0 };
             (mk(json, format!("shard[{}x{};{};bytes{}]", inner[0], inner[1], loc, if inner_sum { "|sum" } else { "" }), true, Some(inner.clone())),
-             "none".into(), format!(" isz={} nchunks={} idx={}:{} icrc={}", isz, n, loc, if big { "big" } else { "little" }, icrc as u8))
+             "none".into(), format!(" isz={} nchunks={} idx={}:{} icrc={} isum={}", isz, n, loc, if big { "big" } else { "little" }, icrc as u8, inner_sum as u8))
         }
     }
 }
@@ -218,15 +345,28 @@ pub fn generate(tier: &str, seed: u64) -> Vec<String> {
         for _ in 0..(if thorough { 3 } else { 2 }) {
             let c: Vec<u64> = gs.iter().map(|&g| rng.below(g.max(1))).collect();
             let cs = nl(&c);
-            out.push(format!("c15 op corrupt_all c={} masks=01,80,ff seed={}", cs, rng.next() % 1000));
+            let layout: String = extra.split(' ').filter(|s| s.starts_with("isz=") || s.starts_with("idx=")).map(|s| format!(" {}", s)).collect();
+            out.push(format!("c15 op corrupt_all c={} masks=01,80,ff seed={}{}", cs, rng.next() % 1000, layout));
+            if fam == 0 { out.push(format!("c15 op novalidate c={} sums=outer", cs)); }
+            if (fam == 2 || fam == 3) && extra.contains("isum=1") {
+                let f: BTreeMap<&str, &str> = extra.split(' ').filter_map(|kv| kv.split_once('=')).collect();
+                out.push(format!("c15 op novalidate c={} sums=inner nchunks={} idx={} icrc={}", cs, f["nchunks"], f["idx"], f["icrc"]));
+            }
             out.push(format!("c15 op multi c={} n={} seed={}", cs, if thorough { 60 } else { 20 }, rng.next() % 1000));
             out.push(format!("c15 op truncate_all c={}{}", cs, if extra.is_empty() { String::new() } else { extra.split(' ').filter(|s| s.starts_with("isz=")).map(|s| format!(" {}", s)).collect::<String>() }));
             out.push(format!("c15 op extend c={} seed={}", cs, rng.next() % 1000));
-            if fam == 2 {
+            if fam == 2 || fam == 3 {
                 let fields: BTreeMap<&str, &str> = extra.split(' ').filter_map(|kv| kv.split_once('=')).collect();
                 let n: u64 = fields["nchunks"].parse().unwrap();
-                for (off, size) in [(u64::MAX - 1, 5u64), (u64::MAX, 1), (1 << 40, 4), (0, u64::MAX - 1), (7, 1 << 33), (u64::MAX - 7, 8), (3, 0), (0, 1)] {
-                    out.push(format!("c15 op setindex c={} i={} off={} size={} nchunks={} idx={}", cs, rng.below(n), off, size, n, fields["idx"]));
+                let inner = cfg.eff_inner.clone().unwrap_or_default();
+                // entries near u64::MAX, half-sentinels (only (MAX,MAX) means "missing"), past the end, overlapping, empty
+                for (off, size) in [(u64::MAX - 1, 5u64), (u64::MAX, 1), (1 << 40, 4), (0, u64::MAX - 1), (7, 1 << 33), (u64::MAX - 7, 8), (3, 0), (0, 1),
+                                    (u64::MAX, 0), (0, u64::MAX), (u64::MAX, 8), (u64::MAX, u64::MAX - 1), (u64::MAX - 1, u64::MAX), (1, u64::MAX), (u64::MAX / 2 + 1, u64::MAX / 2 + 1)] {
+                    out.push(format!("c15 op setindex c={} i={} off={} size={} nchunks={} idx={} icrc={} inner={}", cs, rng.below(n), off, size, n, fields["idx"], fields["icrc"], nl(&inner)));
+                }
+                // an entry of the RIGHT size that starts inside the value and ends beyond it
+                for k in [1u64, 2, 5] {
+                    out.push(format!("c15 op setindex c={} i={} off=len-{} size=orig nchunks={} idx={} icrc={} inner={}", cs, rng.below(n), k, n, fields["idx"], fields["icrc"], nl(&inner)));
                 }
             }
         }
